@@ -80,9 +80,20 @@ fn worker(args: &[String]) -> i32 {
     let mut panics: Vec<Value> = vec![];
     let mut det_checked = 0u64;
     let mut k = 0u64;
+    // every run leaves its engine behind (the engine's runtime holds itself through its own callbacks), so a worker
+    // process grows; it stops at the limit and the driver continues the slot in a fresh process
+    let rss_limit_kb: u64 = arg(args, "--rss-limit-mb").and_then(|s| s.parse::<u64>().ok()).unwrap_or(0) * 1024;
+    let mut stopped_early = false;
     while k < count {
         if t0.elapsed().as_secs_f64() > budget {
             break;
+        }
+        if rss_limit_kb > 0 && k % 8 == 0 && k > 0 {
+            let rss_kb = std::fs::read_to_string("/proc/self/statm").ok().and_then(|t| t.split_whitespace().nth(1).and_then(|x| x.parse::<u64>().ok())).map(|pages| pages * 4).unwrap_or(0);
+            if rss_kb > rss_limit_kb {
+                stopped_early = true;
+                break;
+            }
         }
         let index = from + k * stride;
         k += 1;
@@ -148,7 +159,7 @@ fn worker(args: &[String]) -> i32 {
     }
     let res = json!({
         "check": id, "tier": tier, "base_seed": base, "from": from, "stride": stride,
-        "cases": cases, "runs": runs, "nontrivial": nontrivial,
+        "cases": cases, "runs": runs, "nontrivial": nontrivial, "indices_done": k, "stopped_at_rss_limit": stopped_early,
         "keys": keys.iter().collect::<Vec<_>>(),
         "shapes": shapes.iter().collect::<Vec<_>>(),
         "scheds": scheds.iter().collect::<Vec<_>>(),
